@@ -43,6 +43,11 @@ impl<P: MNT6Config> From<G2Affine<P>> for G2Prepared<P> {
             addition_coefficients: vec![],
         };
 
+        // The point at infinity has no line coefficients; `ate_miller_loop` maps it to 1.
+        if g.infinity {
+            return g_prep;
+        }
+
         let mut r = G2ProjectiveExtended {
             x: g.x,
             y: g.y,
